@@ -4,7 +4,7 @@
 (* ColourMath.tla; the agreement in bits must reach the threshold of the edge      *)
 (* class and component type.  With CALIB=1 in the environment the measured bits     *)
 (* are printed as NOTE lines (calibration runs), nothing is rejected.              *)
-EXTENDS ColourMath, Json, IOUtils, TLC
+EXTENDS OkColour, HsluvRef, Json, IOUtils, TLC
 
 Rec == ndJsonDeserialize(IOEnv.TRACE)
 Calib == "CALIB" \in DOMAIN IOEnv /\ IOEnv.CALIB = "1"
@@ -44,6 +44,12 @@ EdgeBits(a, b, in, out) ==
     [] a = "hsl" /\ b = "hsv" -> HsvHslBits(out, in)
     [] a = "xyz" /\ b = "linluma" -> LumaFromXyzBits(in, out)
     [] a = "linluma" /\ b = "xyz" -> XyzFromLumaBits(in, out)
+    [] a = "okhsv" /\ b = "oklab" -> OkhsvBits(in, out)
+    [] a = "oklab" /\ b = "okhsv" -> OkhsvBits(out, in)
+    [] a = "okhsl" /\ b = "oklab" -> OkhslBits(in, out)
+    [] a = "oklab" /\ b = "okhsl" -> OkhslBits(out, in)
+    [] a = "lchuv" /\ b = "hsluv" -> HsluvBits(in, out)
+    [] a = "hsluv" /\ b = "lchuv" -> HsluvBits(out, in)
     [] a = "xyz" /\ b = "lmsvk" -> MatBits(K.vk, in, out)
     [] a = "lmsvk" /\ b = "xyz" -> MatBits(K.vkinv, in, out)
     [] a = "xyz" /\ b = "lmsbfd" -> MatBits(K.bfd, in, out)
@@ -54,10 +60,15 @@ EdgeBits(a, b, in, out) ==
    lattice, threshold-straddling and random inputs: exact-formula edges 49..55 bits in f64 and 21..25 in f32;
    edges through palette's hard-coded 7-digit RGB matrices 23..24 (the publication itself is 7 digits);
    Oklab edges 22..24 (10-digit published matrices, two published M1).  Thresholds leave 4..5 bits (>= 16x). *)
+(* Okhsv / Okhsl against the transcription of the published procedure (OkColour.tla).  Calibration on the pinned tree:
+   cylinder -> Oklab 48..58 bits in f64 and 20..29 in f32; Oklab -> cylinder (reference applied to the result) 48 / 17 *)
+OkCyl(a, b) == {a, b} \in {{"okhsv", "oklab"}, {"okhsl", "oklab"}}
 Published7(a, b) == {a, b} = {"linsrgb", "xyz"} \/ (a \in {"lmsvk", "lmsbfd"} /\ b = "xyz")    \* 7-decimal inverses
 OkEdge(a, b) == "oklab" \in {a, b} /\ ({a, b} \cap {"xyz", "linsrgb"}) # {}
 Threshold(a, b, t) ==
-  IF t = "f32" THEN (IF OkEdge(a, b) THEN 16 ELSE 17)
+  IF OkCyl(a, b) THEN (IF t = "f32" THEN (IF a = "oklab" THEN 12 ELSE 15) ELSE 42)
+  ELSE IF {a, b} = {"lchuv", "hsluv"} THEN (IF t = "f32" THEN 16 ELSE 38)      \* calibration: 21 / 43 (L* = 99.9, chroma 176: S = 67414)
+  ELSE IF t = "f32" THEN (IF OkEdge(a, b) THEN 16 ELSE 17)
   ELSE IF Published7(a, b) THEN 19
   ELSE IF OkEdge(a, b) THEN 18
   ELSE 44
@@ -71,6 +82,20 @@ InFormulaDomain(a, b, in) ==
     [] a = "luv" /\ b = "xyz" -> FxLt(FxEps(10), in[1])
     [] a = "xyz" /\ b = "luv" -> FxLt(FxEps(30), in[2])
     [] a = "srgb" /\ b \in {"hsv", "hsl"} -> \A i \in 1..3 : FxLe(FxZero, in[i]) /\ FxLe(in[i], FxOne)
+    \* Okhsl: black and white are special-cased (also for chromatic input, unlike the listing); within 2^-12 of them
+    \* the fourth powers of get_Cs leave the fixed-point range of the reference, so those inputs are not judged
+    [] a = "okhsl" /\ b = "oklab" -> FxLe(FxEps(12), in[3]) /\ FxLe(in[3], FxSub(FxOne, FxEps(12)))
+    \* ... and the published inverse has a pole in the saturation beyond the gamut surface (t = (C - k0) / (k1 + k2 (C - k0))
+    \* with k2 < 0), so Oklab -> Okhsl is judged for colours of the sRGB gamut (linear components within 2^-10 of [0, 1])
+    [] a = "oklab" /\ b = "okhsl" -> /\ FxLe(FxEps(12), in[1]) /\ FxLe(in[1], FxSub(FxOne, FxEps(12)))
+                                      /\ LET rgb == OkToLin(in[1], in[2], in[3])
+                                         IN \A i \in 1..3 : FxLe(FxNeg(FxEps(10)), rgb[i]) /\ FxLe(rgb[i], FxAdd(FxOne, FxEps(10)))
+    \* HSLuv: the reference sets chroma / saturation to 0 below L = 1e-8 and above 99.9999999 (palette has the first guard
+    \* only, see C15); judged for lightness in [2^-20, 100 - 2^-10]
+    [] a = "lchuv" /\ b = "hsluv" -> FxLe(FxEps(20), in[1]) /\ FxLe(in[1], FxSub(FxInt(100), FxEps(10)))
+    [] a = "hsluv" /\ b = "lchuv" -> FxLe(FxEps(20), in[3]) /\ FxLe(in[3], FxSub(FxInt(100), FxEps(10)))
+    [] a = "okhsv" /\ b = "oklab" -> FxLe(FxEps(40), in[3])
+    [] a = "oklab" /\ b = "okhsv" -> FxLe(FxEps(40), in[1])
     [] OTHER -> TRUE
 
 (* a saturation sweep of one Okhsl hue and lightness, converted to Oklch: out[i] = (L, C, h) *)
